@@ -502,8 +502,8 @@ def main():
         return
     prop = a.prop
     tier = a.tier if a.tier in ("quick", "thorough") else "quick"
-    hs = [h for h in allh if (prop in h.props and (tier == "thorough" or h.tier == "quick"))
-          or (prop in h.also and tier == "thorough")]
+    hs = [h for h in allh if h.tier != "off" and ((prop in h.props and (tier == "thorough" or h.tier == "quick"))
+          or (prop in h.also and tier == "thorough"))]
     if a.only:
         hs = [h for h in hs if a.only in h.name]
     if a.cap:
